@@ -256,3 +256,36 @@ PROPS["C19"] = {'assumptions': ['net.Conn.Close makes a pending Read/Write retur
               'declared lists; + correspondence on real streams and handshakes through a stalling net.Conn wrapper and a scripted context',
  'trusted': ['Go runtime contracts of net.Conn.Close and context.AfterFunc/stop (parameters of the model)',
              'facts_io.go is syntactic (identifier resolution only); over-approximate: a new connection use or foreign context breaks the inclusion theorem']}
+
+PROPS["C09"] = {'assumptions': ['attribute names are ASCII; strings are NUL-free and shorter than 2 GiB (layout / roundtrip theorems)',
+                 'the classad library lists each attribute of the ad once (names distinct up to case)'],
+ 'engines': ['privacy'],
+ 'lean': 'CedarProps.C09',
+ 'level_note': "Scope: the ad's own attributes. A private-named attribute inside a NESTED ad value is rendered by the classad library and does travel "
+               '(recorded observation, DESIGN §4 C09); a public expression may mention a private NAME (that is public data). PutClassAdRaw / '
+               "PutClassAdRawBytes take pre-rendered strings and filter nothing (the caller's duty). Names are ASCII in the model (Go also folds U+212A / "
+               'U+0130 onto k / i and then withholds more). EncryptedAttrs are treated as the code treats them: an extra, exactly-matched list of fixed '
+               'private names. Errors of WriteFrame are not modelled at this layer.',
+ 'level_text': 'case_insensitive, fixed_names_private, prefix_names_private / prefix_needed (tables regenerated from the classad dependency), sent_iff (the '
+               'complete decision for every option word, whitelist, EncryptedAttrs list and peer), default_deny, v2_gate with tooOld_iff / cutoff_is_9_9_0 '
+               '(regenerated literals), sent_sublist, wire_independent_of_private / message_independent_of_private / same_as_redacted (non-interference: '
+               "without the opt-in the serialiser's whole behaviour is a function of the public attributes; every evaluator, stream state and prior buffer), "
+               'unredacted_types_fails (the defect found: evaluating the type trailer in the whole ad breaks it), sealed_iff_ciphertext (tie to the L2 stream '
+               'model), secrets_only_sealed (keyed, not encrypting: unprotected payload bytes = count, public expressions, bare markers, redacted type '
+               'trailer; protected payload bytes = the secret expressions), encrypting_all_sealed, secret_roundtrip (the receiver reassembles the expression '
+               'list and types in all stream states): kernel-checked over the model. Tied to the code by the privacy engine: the full option matrix on a '
+               '4-attribute ad x whitelist shapes x peers x stream states, then generated ads (every fixed name and the prefix in random case variants, '
+               'near-miss names, nested ads, type expressions over private attributes, canaries) x option bits x whitelists x EncryptedAttrs x peer versions '
+               'around 9.9.0 x four stream states; frames (payload, end flag, protected or not — protected frames opened by refcodec), attribute selection, '
+               'predicates, version comparison and GetClassAdRaw (as sent, re-cut by a reference sender, truncated, secret dropped / in clear) compared with '
+               'the model.',
+ 'oracle_engine': {'privacy': 'privacy'},
+ 'technique': 'Lean 4 theorems (both filters reduced to one per-attribute decision, spelled out as an iff; non-interference by showing the item list is a '
+              'function of the public part; byte layout of the unprotected and of the protected frames on the marker path by induction over the item list, '
+              'reusing the C14 layout lemmas; receiver refinement over frame runs) + correspondence of the real PutClassAdWithOptions / GetClassAdRaw on real '
+              'streams over a recording connection with the model, plus a property oracle on the implementation (canary search over every byte and opened '
+              'plaintext, twin serialisation, cleartext-only search, reconstruction by GetClassAd)',
+ 'trusted': ['symbolic (Dolev-Yao) AEAD/hash: seal/H are free constructors (INT-CTXT, collision-freeness idealised; DESIGN §3)',
+             "the PelicanPlatform classad library: GetAttributes/Lookup/Expr.String list the ad's own attributes with names distinct up to case; its evaluator "
+             '(EvaluateAttrString) is an arbitrary function parameter of the model; Redacted/Delete remove exactly the named attributes',
+             'time (getCurrentUnixTime) is a parameter of the model, read back from the wire by the engine']}
